@@ -34,7 +34,6 @@ StateOf(e) ==
   [lim |-> e.lim, gpus |-> e.gpus, req |-> [p \in Pods |-> e.req[p]], nd |-> [p \in Pods |-> e.nd[p]],
    persist |-> FALSE, drain |-> e.st.drain = 1,
    up |-> e.st.up = 1, flips |-> e.st.flips, restarts |-> e.st.restarts, leaks |-> e.st.leaks,
-   refusals |-> e.st.refusals, panics |-> e.st.panics,
    alive |-> [p \in Pods |-> e.st.pods[p].alive = 1],
    bound |-> [p \in Pods |-> e.st.pods[p].bound = 1],
    br |-> [p \in Pods |-> [ex |-> e.st.pods[p].ex = 1, ph |-> e.st.pods[p].ph, fa |-> e.st.pods[p].fa, gen |-> e.st.pods[p].gen]],
